@@ -265,8 +265,10 @@ pub fn op_hand(mode: &str, np: usize, script: &str) -> String {
     let script_owned: Vec<String> = script.split(';').map(|s| s.to_string()).collect();
     // "s-" in front of the mode: the download directory is not clean - under the name of every piece the task is asked to
     // fetch lies a stale, partial file (an interrupted earlier run); it is put back before every step until the piece is stored
-    let stale_on = mode.starts_with("s-");
-    let mode = mode.trim_start_matches("s-").to_string();
+    // "d-": in the way of every piece being fetched there is a *directory* of the piece file's name, so the store fails
+    let dir_on = mode.starts_with("d-");
+    let stale_on = mode.starts_with("s-") || dir_on;
+    let mode = mode.trim_start_matches("s-").trim_start_matches("d-").to_string();
     let r = catch(|| {
         // one blocking thread: file operations of the task (tokio::fs) and the barrier below share one FIFO queue
         let rt = tokio::runtime::Builder::new_current_thread().enable_all().start_paused(true).max_blocking_threads(1).build().unwrap();
@@ -306,8 +308,13 @@ pub fn op_hand(mode: &str, np: usize, script: &str) -> String {
                         let c = content(*i, *l);
                         stale.entry(hash_to_string(&piece_hash(*i, *l, true)) + ".piece").or_insert_with(|| c[..c.len() / 3].to_vec());
                     }
-                    for (n, d) in stale.iter() {
-                        std::fs::write(n, d).unwrap();
+                    for (n, d) in stale.iter_mut() {
+                        if dir_on {
+                            d.clear();
+                            let _ = std::fs::create_dir_all(n.as_str());
+                        } else {
+                            std::fs::write(n.as_str(), &d).unwrap();
+                        }
                         files.insert(n.clone(), d.clone());
                     }
                 }
@@ -800,7 +807,11 @@ pub fn gen_script(r: &mut Rng, flavor: &str) -> String {
         evs.push(ev);
     }
     // x: events must be fatal for the frame decoder; "0000000109" is an unknown id (skipped) → replace
-    let mode = if (flavor == "C01" || flavor == "C10") && r.chance(1, 3) { format!("s-{}", mode) } else { mode };
+    let mode = if (flavor == "C01" || flavor == "C10") && r.chance(1, 3) {
+        format!("{}-{}", if r.chance(1, 4) { "d" } else { "s" }, mode)
+    } else {
+        mode
+    };
     format!("hand {} {} {}", mode, np, evs.join(";"))
 }
 
